@@ -421,7 +421,7 @@ theorem fanoutAll_eq (cap : Nat) (ms : List Msg) : ∀ (cs : List Chan),
 
 def Located (s : RaceSt) (m : Nat) : Prop :=
   m ∈ s.topicMem ∨ m ∈ s.topicDisk ∨ m ∈ s.chanMem ∨ m ∈ s.chanDisk ∨ m ∈ s.inflight ∨ m ∈ s.deferred ∨
-    m ∈ s.pumpHolds ∨ m ∈ s.scanHolds ∨ m ∈ s.ansHolds ∨ m ∈ s.finished
+    m ∈ s.pumpHolds ∨ m ∈ s.scanHolds ∨ m ∈ s.ansHolds ∨ m ∈ s.finished ∨ m ∈ s.lateTopic
 
 /-- invariant of every tree whose scans hold the exit lock (model parameter, tied to the tree): until the
 channel closes every acknowledged message is somewhere; once the channel has closed no scan holds a message -/
@@ -459,7 +459,7 @@ theorem raceInv_run : ∀ (sched : List RaceStep) (s s' : RaceSt), RaceInv s →
 /-- where an acknowledged message may be, taking into account which containers are still going to be
 flushed: a container of a closed channel / topic does not count -/
 def Safe (s : RaceSt) (m : Nat) : Prop :=
-  m ∈ s.topicDisk ∨ m ∈ s.chanDisk ∨ m ∈ s.finished ∨ m ∈ s.lateReg ∨ m ∈ s.pumpHolds ∨
+  m ∈ s.topicDisk ∨ m ∈ s.chanDisk ∨ m ∈ s.finished ∨ m ∈ s.lateReg ∨ m ∈ s.lateTopic ∨ m ∈ s.pumpHolds ∨
   (s.topicClosed = false ∧ m ∈ s.topicMem) ∨
   (s.chanClosed = false ∧ (m ∈ s.chanMem ∨ m ∈ s.inflight ∨ m ∈ s.deferred ∨ m ∈ s.scanHolds ∨ m ∈ s.ansHolds))
 
@@ -508,6 +508,9 @@ structure JoinInv (s : RaceSt) : Prop where
   ph : s.topicExiting = true → s.pumpHolds = []
   /-- nothing was ever registered in flight on a flushed channel -/
   late : s.lateReg = []
+  guard : s.newTopicGuard = true
+  /-- nothing was acknowledged into a topic created after Exit's critical section -/
+  lt : s.lateTopic = []
 
 theorem joinInv_init : JoinInv joinedTree where
   fixed :=
@@ -519,15 +522,19 @@ theorem joinInv_init : JoinInv joinedTree where
   join := rfl
   ph := fun _ => rfl
   late := rfl
+  guard := rfl
+  lt := rfl
 
 theorem joinInv_step (s s' : RaceSt) (a : RaceStep) (h : JoinInv s) (hs : raceStep s a = some s') : JoinInv s' := by
-  obtain ⟨hf, hj, hp, hl⟩ := h
-  refine ⟨fixedInv_step s s' a hf hs, ?_, ?_, ?_⟩
+  obtain ⟨hf, hj, hp, hl, hg, hlt⟩ := h
+  refine ⟨fixedInv_step s s' a hf hs, ?_, ?_, ?_, ?_, ?_⟩
   · cases a <;> simp only [raceStep] at hs <;> (repeat' split at hs) <;> (try cases hs) <;> (try exact hj) <;> grind
   · have hce := hf.ce
     cases a <;> simp only [raceStep] at hs <;> (repeat' split at hs) <;> (try cases hs) <;> grind [mem_erase_or]
   · have hce := hf.ce
     cases a <;> simp only [raceStep] at hs <;> (repeat' split at hs) <;> (try cases hs) <;> grind [mem_erase_or]
+  · cases a <;> simp only [raceStep] at hs <;> (repeat' split at hs) <;> (try cases hs) <;> (try exact hg) <;> grind
+  · cases a <;> simp only [raceStep] at hs <;> (repeat' split at hs) <;> (try cases hs) <;> (try exact hlt) <;> grind
 
 theorem joinInv_run : ∀ (sched : List RaceStep) (s s' : RaceSt), JoinInv s → raceRun s sched = some s' → JoinInv s' := by
   intro sched
@@ -547,7 +554,7 @@ structure BarrierInv (s : RaceSt) : Prop where
   bar : s.topicBarrier = true
   /-- an acknowledged message is on the topic's disk queue, has been handed to the channel, or waits in
   the memory queue of a topic that is still going to be flushed -/
-  safe : ∀ m ∈ s.acked, m ∈ s.topicDisk ∨ m ∈ s.fanned ∨ (s.topicClosed = false ∧ m ∈ s.topicMem)
+  safe : ∀ m ∈ s.acked, m ∈ s.topicDisk ∨ m ∈ s.fanned ∨ m ∈ s.lateTopic ∨ (s.topicClosed = false ∧ m ∈ s.topicMem)
   pend : s.topicExiting = true → s.putPending = []
   ce : s.chanClosed = true → s.topicExiting = true
   tc : s.topicClosed = true → s.chanClosed = true
